@@ -2,6 +2,7 @@ import BbRe.Model.NaiveDir
 import BbRe.Lemmas.NaiveDir
 import BbRe.Lemmas.NaiveDirLazy
 import BbRe.Lemmas.NaiveDirReach
+import BbRe.Lemmas.NaiveDirComplete
 import BbRe.Lemmas.InputRootExamples
 /-!
 # C17, eager half: `naiveBuildDirectory.MergeDirectoryContents` (non-virtual workers)
@@ -123,6 +124,29 @@ theorem naive_outside_unchanged (c : CAS) (O : Oracle) (fuel : Nat) (d : Dig) (t
   · exact updAt_frame _ tp q hq fs
   · rfl
 
+/-- **Completeness (sufficient fuel).** On an acyclic store (`Acyclic`: sub-directory digests
+have smaller rank — the depth of the tree a digest names), with fuel above the rank of the
+root, when every Directory reachable from the root is present and well-formed and every file
+blob it lists is present (`Complete`), and no call fails, the merge returns OK — in
+particular fuel never runs out. So `naive_exact`/`naive_agrees_lazy` speak about every
+well-formed input, and "error" in `naive_error` is never an artefact of the fuel. -/
+theorem naive_succeeds_when_clean (c : CAS) (O : Oracle) (hcas : O.cas = []) (hfs : O.fs = [])
+    (rank : Dig → Nat) (hr : Acyclic c rank) (fuel : Nat) (d : Dig) (hf : rank d < fuel)
+    (hc : Complete c d) : ∃ ch, NaiveDir.merge c O fuel d [] = (ch, .ok) := by
+  obtain ⟨ch, h⟩ := clean_of_complete c O hcas hfs rank hr fuel d [] hf hc
+  exact ⟨ch, by simp [NaiveDir.merge, outcomeOf, h]⟩
+
+/-- … and then the tree is the requested one (`naive_exact` applies to the witness). -/
+theorem naive_succeeds_with_the_requested_tree (c : CAS) (O : Oracle) (hcas : O.cas = [])
+    (hfs : O.fs = []) (rank : Dig → Nat) (hr : Acyclic c rank) (fuel : Nat) (d : Dig)
+    (hf : rank d < fuel) (hc : Complete c d) :
+    (NaiveDir.merge c O fuel d []).2 = .ok ∧ ∀ q : Path,
+      (rawAt (.dir (NaiveDir.merge c O fuel d []).1) q).map kindOf =
+        (rawAt (expand c fuel (.lazy d none)) q).map kindOf := by
+  obtain ⟨ch, h⟩ := naive_succeeds_when_clean c O hcas hfs rank hr fuel d hf hc
+  rw [h]
+  exact ⟨rfl, naive_exact c O fuel d ch h⟩
+
 /-! ### non-vacuity (store `exCAS` of `Lemmas/InputRootExamples.lean`) -/
 
 /-- `b0` = { again/ → c0 (empty), y (file f2) } merges OK without faults … -/
@@ -137,6 +161,17 @@ example : (NaiveDir.merge exCAS ⟨[dC], [], []⟩ 3 dB []).2 = .error (some (.d
 example : (NaiveDir.merge exCAS ⟨[f2], [], []⟩ 3 dB []).2 = .error none := by decide
 /-- … and the root `a0`, which references the malformed `dd` (file and symlink both called "y"), fails. -/
 example : (NaiveDir.merge exCAS ⟨[], [], []⟩ 3 dA []).2 = .error none := by decide
+/-- `c0` (the empty directory) is complete in `exCAS`, which is acyclic (`exCAS_acyclic`). -/
+example : Complete exCAS dC := by
+  intro d' hr
+  cases hr with
+  | refl => exact ⟨⟨[], [], []⟩, by decide, ⟨by simp [entryNames], by simp [entryNames], by simp, by simp, by simp⟩, by simp⟩
+  | step hm he _ _ =>
+    have : assoc exCAS.dirs dC = some (some ⟨[], [], []⟩) := by decide
+    rw [this] at hm
+    simp only [Option.some.injEq] at hm
+    subst hm
+    simp at he
 /-- Paths that part ways. -/
 example : Diverge [[98], [117]] [[98], [111], [120]] := .tail _ (.head _ _ (by decide))
 
